@@ -6,10 +6,55 @@
 #include "tzob.h"
 
 static unsigned mdays(unsigned y, unsigned m) { static unsigned md[] = {0,31,28,31,30,31,30,31,31,30,31,30,31}; return md[m] + (m == 2 && y % 4 == 0 && (y % 100 || y % 400 == 0)); }
+static void emit_day(FILE *o, unsigned s, unsigned y, unsigned m, unsigned d)
+{
+	echs_instant_t g = mkinst(y, m, d, 255, 0, 0, 0), h = {.u = 0}, b = {.u = 0};
+	unsigned nd = 0, wd = 0;
+	nd_crashed = 0;
+	if (!sigsetjmp(nd_jb, 1)) {
+		h = echs_instant_rescale(g, (echs_scale_t)s);
+		if (!echs_nul_instant_p(h)) {
+			echs_instant_t hd = echs_instant_detach_scale(h);
+			b = echs_instant_detach_scale(echs_instant_rescale(h, SCALE_GREGORIAN));
+			nd = echs_scale_ndim((echs_scale_t)s, hd.y, hd.m);
+			wd = echs_scale_wday((echs_scale_t)s, hd.y, hd.m, hd.d);
+			h = hd;
+		}
+	}
+	fprintf(o, "{\"e\":\"Day\",\"sc\":%u,\"g\":[%u,%u,%u]", s, y, m, d);
+	if (nd_crashed) { fputs(",\"crash\":true}\n", o); return; }
+	/* "full" marks lines whose predecessor line is the previous calendar day */
+	fprintf(o, ",\"h\":[%u,%u,%u],\"back\":[%u,%u,%u],\"ndim\":%u,\"wd\":%u,\"hscale\":%u}\n", h.y, h.m, h.d, b.y, b.m, b.d, nd, wd,
+		echs_nul_instant_p(h) ? 0 : s);
+}
 int main(int argc, char *argv[])
 {
 	unsigned s = argc > 1 ? atoi(argv[1]) : 1;
 	int thorough = argc > 2 && !strcmp(argv[2], "thorough");
+	if (argc > 4 && !strcmp(argv[1], "mixed")) {
+		/* drv_scale mixed <tier> <seed> <prefix>: the same days, but every day is converted into several scales in turn (both table
+		 * calendars among them) before the next day is taken up - what a file with rules in different scales does; the lines go to
+		 * one file per scale (<prefix>.<scale>.ndjson), each like the trace of a single-scale run */
+		static const unsigned mix[] = {9, 10, 1, 10, 9};
+		FILE *of[11] = {0};
+		nd_rng_s = strtoull(argv[3], 0, 10); nd_guard_init();
+		for (size_t k = 0; k < 5; k++) if (!of[mix[k]]) { char fn[4096]; snprintf(fn, sizeof(fn), "%s.%u.ndjson", argv[4], mix[k]); of[mix[k]] = fopen(fn, "w"); }
+		unsigned ph2 = nd_rnd(5);
+		for (unsigned y = 1901; y <= 2099; y++) {
+			int full = thorough || (y % 5) == ph2 || (y >= 1936 && y <= 1938) || (y >= 2021 && y <= 2023) || (y >= 2076 && y <= 2078);
+			for (unsigned m = 1; m <= 12; m++) for (unsigned d = 1; d <= mdays(y, m); d++) {
+				if (!full && !(d <= 2 || d >= mdays(y, m) - 1)) continue;
+				/* the second visit of a scale on the same day is made but not logged (one line per day and scale) */
+				unsigned seen = 0;
+				for (size_t k = 0; k < 5; k++) {
+					if (seen & (1U << mix[k])) { echs_instant_t g = mkinst(y, m, d, 255, 0, 0, 0); (void)echs_instant_rescale(g, (echs_scale_t)mix[k]); continue; }
+					seen |= 1U << mix[k]; emit_day(of[mix[k]], mix[k], y, m, d);
+				}
+			}
+		}
+		for (unsigned k = 0; k < 11; k++) if (of[k]) fclose(of[k]);
+		return 0;
+	}
 	nd_rng_s = argc > 3 ? strtoull(argv[3], 0, 10) : 1;
 	FILE *o = stdout; static char obuf[1 << 20]; setvbuf(o, obuf, _IOFBF, sizeof(obuf));
 	nd_guard_init();
@@ -20,24 +65,7 @@ int main(int argc, char *argv[])
 		int full = thorough || (y % 5) == ph || (y >= 1936 && y <= 1938) || (y >= 2021 && y <= 2023) || (y >= 2076 && y <= 2078);
 		for (unsigned m = 1; m <= 12; m++) for (unsigned d = 1; d <= mdays(y, m); d++) {
 			if (!full && !(d <= 2 || d >= mdays(y, m) - 1)) { continue; }
-			echs_instant_t g = mkinst(y, m, d, 255, 0, 0, 0), h = {.u = 0}, b = {.u = 0};
-			unsigned nd = 0, wd = 0;
-			nd_crashed = 0;
-			if (!sigsetjmp(nd_jb, 1)) {
-				h = echs_instant_rescale(g, (echs_scale_t)s);
-				if (!echs_nul_instant_p(h)) {
-					echs_instant_t hd = echs_instant_detach_scale(h);
-					b = echs_instant_detach_scale(echs_instant_rescale(h, SCALE_GREGORIAN));
-					nd = echs_scale_ndim((echs_scale_t)s, hd.y, hd.m);
-					wd = echs_scale_wday((echs_scale_t)s, hd.y, hd.m, hd.d);
-					h = hd;
-				}
-			}
-			fprintf(o, "{\"e\":\"Day\",\"sc\":%u,\"g\":[%u,%u,%u]", s, y, m, d);
-			if (nd_crashed) { fputs(",\"crash\":true}\n", o); continue; }
-			/* "full" marks lines whose predecessor line is the previous calendar day */
-			fprintf(o, ",\"h\":[%u,%u,%u],\"back\":[%u,%u,%u],\"ndim\":%u,\"wd\":%u,\"hscale\":%u}\n", h.y, h.m, h.d, b.y, b.m, b.d, nd, wd,
-				echs_nul_instant_p(h) ? 0 : s);
+			emit_day(o, s, y, m, d);
 		}
 	}
 	/* the other direction: Hijri dates from year 1 to 1600, in and far outside the coverage of the table calendars */
